@@ -37,6 +37,13 @@ Theorem C12_stream_keyed_flavour (HL : HashLen hash) f key o cs now :
   CacheInv fS /\ CacheInv fA.
 Proof. exact (stream_keyed_flavour hash HL f key o cs now). Qed.
 
+(* whole sessions: ANY assignment of the sync / async entry points to the calls of a session (every operation kind,
+   damage steps in between included; the one exception is opening a keyed streamed writer, covered by the theorem above)
+   gives the same answer at every step and the same final state *)
+Theorem C12_sessions_any_flavour (g : op -> flavour) ops s i :
+  forallb fl_free ops = true -> run_ops hash s (map (fun o => reflavour (g o) o) ops) i = run_ops hash s ops i.
+Proof. exact (run_ops_any_flavour hash g ops s i). Qed.
+
 End C12.
 
 Definition toy_hash (a : algo) (d : bytes) : bytes :=
@@ -52,3 +59,4 @@ Print Assumptions C12_step_flavour_blind.
 Print Assumptions C12_write_flavour.
 Print Assumptions C12_write_hash_flavour.
 Print Assumptions C12_stream_keyed_flavour.
+Print Assumptions C12_sessions_any_flavour.
